@@ -9,7 +9,7 @@ from vf import common
 def registry():
     from vf import checks_refine
     r = {"C01": checks_refine.c01, "C02": checks_refine.c02}
-    for mod in ("checks_asm", "checks_cpp", "checks_misc", "checks_refine2"):
+    for mod in ("checks_asm", "checks_branch", "checks_cpp", "checks_misc", "checks_refine2"):
         try:
             m = __import__("vf." + mod, fromlist=["REGISTRY"])
             r.update(m.REGISTRY)
